@@ -207,6 +207,7 @@ func logFromAbstractBases(r *rand.Rand, cfg WireCfg, gp GenParams, units []inter
 			f.Units = append(f.Units, genUnit(r, k, tables, gp, &ts, cfg.Gtid))
 		}
 	}
+	l.assignStatusVars(r)
 	l.Layout()
 	return l
 }
@@ -834,11 +835,23 @@ func stopPlans(l *Log, start Pos, r *rand.Rand, stride int) []AttemptPlan {
 		a.ConnFault = cf
 		out = append(out, a)
 	}
+	// the master ends the dump with an ERR packet carrying a code that drivers, proxies and replication code bases are known
+	// to treat specially (client-side CR_* numbers relayed by a proxy, "connection killed", "server shutdown", the extremes)
+	for n, code := range notableErrCodes {
+		a := defaultAttempt()
+		if n%2 == 1 {
+			a.Pacing = "lockstep"
+		}
+		a.Fault = &Fault{Kind: "err", At: r.Intn(npk + 1), Code: code, Msg: "notable code " + itoa(int(code))}
+		out = append(out, a)
+	}
 	d := defaultAttempt()
 	d.Dead = true
 	out = append(out, d)
 	return out
 }
+
+var notableErrCodes = []uint16{0, 1, 1040, 1045, 1053, 1105, 1152, 1158, 1159, 1160, 1161, 1205, 1213, 1236, 1317, 1927, 2000, 2002, 2003, 2006, 2013, 2014, 2027, 2055, 3024, 65535}
 
 func modeC05(e *Env) {
 	cfgs := allCfgs()
@@ -1035,7 +1048,8 @@ func repeatedValues(e *Env, id int, cfg WireCfg, cols []Col, note string) {
 	ts := uint32(1600000000)
 	pool := make([][][]byte, len(t.Cols))
 	for ci := range t.Cols {
-		pool[ci] = [][]byte{zeroValue(&t.Cols[ci]), genCell(e.R, &t.Cols[ci], 12), genCell(e.R, &t.Cols[ci], 12)}
+		// the third value of the pool is long where the type allows it (an implementation may treat long values differently)
+		pool[ci] = [][]byte{zeroValue(&t.Cols[ci]), genCell(e.R, &t.Cols[ci], 12), genCell(e.R, &t.Cols[ci], 60+e.R.Intn(400))}
 	}
 	for u := 0; u < 3; u++ {
 		ev := &Ev{K: pickS(e.R, "write", "update"), TS: ts, Tbl: t}
@@ -1061,6 +1075,12 @@ func repeatedValues(e *Env, id int, cfg WireCfg, cols []Col, note string) {
 			rp := RowPair{B: none, A: mk()}
 			if ev.K == "update" {
 				rp.B = mk()
+				// an UPDATE leaves most columns as they were: the same bytes in both images
+				for ci := range rp.B {
+					if e.R.Intn(2) == 0 {
+						rp.B[ci] = Cell{St: "val", Bytes: append([]byte(nil), rp.A[ci].Bytes...)}
+					}
+				}
 			}
 			ev.Rows = append(ev.Rows, rp)
 		}
